@@ -508,3 +508,95 @@ def fact_noslash(facts, v):
             if find and npos and ((op == '==' and pol) or (op == '!=' and not pol)):
                 return True
     return False
+
+
+# ------------------------------------------------------------------ flow-insensitive def-use (A4, may-derive)
+class Flow(object):
+    """definitions of locals and what an expression may be computed from"""
+
+    def __init__(self, sem, fn):
+        self.sem = sem
+        self.fn = fn
+        self.defs = {}      # lid -> [('expr', node) | ('out', call node, arg index) | ('elem', node)]
+        self.params = {p['lid']: p for p in fn.params}
+        for n in fn.walk():
+            if n.k == 'var':
+                if n.c and n.c[0] is not None:
+                    self.defs.setdefault(n.get('lid'), []).append(('expr', n.c[0]))
+            elif n.k == 'assign' or (n.k == 'call' and n.get('op') in ('=', '+=', '-=', '*=', '/=')):
+                tgt = unwrap(n.c[0])
+                base = tgt
+                elem = False
+                while base is not None and (base.k in ('subscript', 'member') or (base.k == 'call' and base.get('op') == '[]')):
+                    elem = True
+                    base = unwrap(base.c[0])
+                if base is not None and base.k == 'ref' and base.decl.get('kind') in LOCAL_KINDS:
+                    self.defs.setdefault(base.decl.get('lid'), []).append(('elem' if elem else 'expr', n.c[1]))
+            elif n.k in ('call', 'construct') and n.callee:
+                cal = n.callee
+                ptypes = split_sig(cal.get('sig', '()'))
+                for i, arg in enumerate(real_args(n)):
+                    if arg is None or i >= len(ptypes):
+                        continue
+                    pt = ptypes[i]
+                    if pt.endswith('&') and not pt.endswith('&&') and not pt.startswith('const '):
+                        a = unwrap(arg)
+                        if a.k == 'ref' and a.decl.get('kind') in LOCAL_KINDS:
+                            self.defs.setdefault(a.decl.get('lid'), []).append(('out', n, i))
+                if n.k == 'call' and n.get('member') and n.c and cal.get('name') in ('push_back', 'emplace_back', 'insert', 'assign', 'resize'):
+                    o = unwrap(n.c[0])
+                    if o.k == 'ref' and o.decl.get('kind') in LOCAL_KINDS:
+                        for a in n.c[1:]:
+                            if a is not None:
+                                self.defs.setdefault(o.decl.get('lid'), []).append(('elem', a))
+
+    def origins(self, node, seen=None, depth=0):
+        """set of leaves an expression may be computed from:
+        ('param', name) ('call', name, node) ('lit', v) ('field', name) ('global', q) ('enum', q)"""
+        if seen is None:
+            seen = set()
+        out = set()
+        if node is None:
+            return out
+        for n in node.walk():
+            if n.k == 'ref':
+                d = n.decl
+                kind = d.get('kind')
+                if kind == 'param':
+                    if d.get('lid') in self.params:
+                        out.add(('param', d.get('name')))
+                    else:
+                        out.add(('lambdaparam', d.get('name')))
+                    # a by-reference parameter may also be (re)defined inside
+                    self._local(d.get('lid'), seen, out, depth)
+                elif kind in ('local', 'staticlocal'):
+                    self._local(d.get('lid'), seen, out, depth)
+                elif kind == 'enumconst':
+                    out.add(('enum', d.get('q')))
+                elif kind == 'global':
+                    out.add(('global', d.get('q')))
+            elif n.k == 'member' and (not n.c or n.c[0] is None or unwrap(n.c[0]).k == 'this'):
+                out.add(('field', n.decl.get('name')))
+            elif n.k in ('int', 'float', 'str', 'bool'):
+                out.add(('lit', n.get('v')))
+            elif n.k == 'call' and n.callee:
+                out.add(('call', n.callee.get('name'), n))
+        return out
+
+    def _local(self, lid, seen, out, depth):
+        if lid in seen or depth > 12:
+            return
+        seen.add(lid)
+        for d in self.defs.get(lid, []):
+            if d[0] in ('expr', 'elem'):
+                out |= self.origins(d[1], seen, depth + 1)
+            else:
+                call = d[1]
+                out.add(('out', call.callee.get('name'), call, d[2]))
+                # an out-parameter is computed from the call's other arguments
+                for j, a in enumerate(real_args(call)):
+                    if j != d[2] and a is not None:
+                        out |= self.origins(a, seen, depth + 1)
+
+    def call_names(self, node):
+        return set(o[1] for o in self.origins(node) if o[0] in ('call', 'out'))
